@@ -373,6 +373,119 @@ def r07_3(ctx, counts) -> RuleResult:
     return res
 
 
+def r07_4(ctx, counts) -> RuleResult:
+    """the type-compatibility relation of general comparisons is symmetric"""
+    model: Model = ctx.model
+    lat = Lattice(model)
+    res = RuleResult(
+        'R07.4', 'COMPATIBILITY-SYMMETRY',
+        'The `match op1` dispatch of the operand-pair generator decides, from the classes of the '
+        'two operands, whether a general comparison raises XPTY0004. The dispatch is interpreted '
+        'abstractly over the concrete classes it mentions (case selection and isinstance tests '
+        'decided in the class lattice, including the virtual-subclass hooks): for every ordered '
+        'pair of classes (a, b), "raises for (a, b)" must equal "raises for (b, a)" — `A = B` and '
+        '`B = A` are the same comparison. An asymmetric pair means one operand order silently '
+        'compares values of incomparable types.')
+    tok = model.find_class('XPathToken')
+    target = None
+    for f in tok.methods.values():
+        for loop in [n for n in walk_local(f.node) if isinstance(n, ast.For)]:
+            ms = [st for st in loop.body if isinstance(st, ast.Match)]
+            if ms and 'product' in stmt_text(loop.iter) and isinstance(loop.target, ast.Tuple):
+                target = (f, loop, ms[0])
+    if target is None:
+        raise AnalysisError('operand-pair generator with a match dispatch not located')
+    f, loop, m = target
+    a_name, b_name = [t.id for t in loop.target.elts]                      # type: ignore[attr-defined]
+    if stmt_text(m.subject) != a_name:
+        raise AnalysisError('match subject is not the first loop target')
+    mod = f.module
+    universe: list = []
+
+    def add_classes(e: ast.expr) -> list:
+        cs = lat._classes_of(mod, e)
+        for c in cs:
+            if not any(c is u or c == u for u in universe):
+                universe.append(c)
+        return cs
+    cases = []
+    for case in m.cases:
+        pats = case.pattern.patterns if isinstance(case.pattern, ast.MatchOr) else [case.pattern]
+        cls = []
+        for p_ in pats:
+            if isinstance(p_, ast.MatchClass) and not p_.patterns and not p_.kwd_patterns:
+                cls.extend(add_classes(p_.cls))
+            elif isinstance(p_, ast.MatchAs) and p_.pattern is None:
+                cls.append('object')
+            else:
+                raise AnalysisError(f'{f.key}: case pattern `{stmt_text(p_)}` not modelled')
+        cases.append((cls, case))
+    for x in ast.walk(m):
+        if isinstance(x, ast.Call) and dotted(x.func) == 'isinstance' and len(x.args) == 2:
+            add_classes(x.args[1])
+
+    def is_inst(c, classes: list) -> bool:
+        return any(lat.cls_subset(c, k) for k in classes)
+
+    def outcome(stmts: list[ast.stmt], b) -> str:
+        """'raise' | 'ok' for an operand of class b"""
+        for st in stmts:
+            if isinstance(st, ast.Raise):
+                return 'raise'
+            if isinstance(st, (ast.Continue, ast.Break, ast.Return)):
+                return 'ok'
+            if isinstance(st, ast.If):
+                t = st.test
+                neg = False
+                if isinstance(t, ast.UnaryOp) and isinstance(t.op, ast.Not):
+                    t, neg = t.operand, True
+                if not (isinstance(t, ast.Call) and dotted(t.func) == 'isinstance'
+                        and len(t.args) == 2 and stmt_text(t.args[0]) == b_name):
+                    raise AnalysisError(f'{f.key}: test `{stmt_text(st.test)[:50]}` in the type '
+                                        f'dispatch is not an isinstance test on {b_name}')
+                val = is_inst(b, lat._classes_of(mod, t.args[1])) != neg
+                r = outcome(st.body if val else st.orelse, b)
+                if r == 'raise' or (val and st.body and isinstance(
+                        st.body[-1], (ast.Continue, ast.Break, ast.Return))) or \
+                        (not val and st.orelse and isinstance(
+                            st.orelse[-1], (ast.Continue, ast.Break, ast.Return))):
+                    return r
+                if r == 'raise':
+                    return r
+        return 'ok'
+
+    def raises(a, b) -> bool:
+        for cls, case in cases:
+            if 'object' in cls or is_inst(a, cls):
+                return outcome(case.body, b) == 'raise'
+        return False
+
+    # concrete representatives only: a class that has a strict subclass in the universe stands
+    # for "an instance of it that is not an instance of the subclass" and is skipped when it
+    # is abstract/virtual (proxies); builtins and datatype classes are kept
+    nm = lambda c: c.name if isinstance(c, ClassInfo) else c  # noqa: E731
+    n_pairs = 0
+    bad = []
+    for a in universe:
+        for b in universe:
+            n_pairs += 1
+            if raises(a, b) != raises(b, a):
+                if (nm(b), nm(a)) not in [(x, y) for x, y, _ in bad]:
+                    bad.append((nm(a), nm(b), raises(a, b)))
+    res.instances.append(f'{f.key}: {len(universe)} classes {sorted(nm(c) for c in universe)}, '
+                         f'{n_pairs} ordered pairs')
+    for a, b, r in bad:
+        res.fail(finding('R07.4', f, m, f'asymmetric {a}/{b}',
+                         f'comparing a {a} with a {b} {"raises" if r else "does not raise"} '
+                         f'XPTY0004 but comparing a {b} with a {a} '
+                         f'{"does not" if r else "does"}: the two operand orders of one general '
+                         f'comparison disagree'))
+    if not bad:
+        res.ok(n_pairs)
+    counts['compat_pairs'] = n_pairs
+    return res
+
+
 def _shared(ctx, counts) -> list:
     """rules of other modules that are necessary conditions of C07 too: the condition of `if`
     is isolated like its sibling (R08.4); duration/time ordering scales microseconds by 10^6
@@ -492,7 +605,7 @@ def run(ctx) -> dict:
     counts['dispatch_branches'] = n_branches
     counts['virtual_relations'] = len(lat.virtual)
     return {
-        'results': [res, r07_2(ctx, counts), r07_3(ctx, counts)] + _shared(ctx, counts),
+        'results': [res, r07_2(ctx, counts), r07_3(ctx, counts), r07_4(ctx, counts)] + _shared(ctx, counts),
         'counts': counts,
         'explanation':
             'Dispatch-order soundness, decided over the class lattice of the source model: in '
